@@ -4,7 +4,7 @@
    the layout, validated against gcc's sizeof / _Alignof / offsetof for both pointer sizes. *)
 From Coq Require Import ZArith List Bool Lia.
 Import ListNotations.
-Require Import Amoco.C16.Layout Amoco.C16.Proofs.
+Require Import Amoco.C14.Model Amoco.C16.Layout Amoco.C16.Proofs Amoco.C16.Fields Amoco.C16.FieldsProofs.
 Open Scope Z_scope.
 
 (* Natural alignment: every field of a non-packed structure sits at the least offset that is a multiple of its
@@ -35,6 +35,37 @@ Theorem C16_uleb128_roundtrip : forall fuel n t s acc c, 0 <= n < 128 ^ Z.of_nat
   read_uleb s acc c (write_uleb fuel n ++ t) = (acc + n * 2 ^ s, c + Z.of_nat (length (write_uleb fuel n))).
 Proof. exact uleb_roundtrip. Qed.
 Print Assumptions C16_uleb128_roundtrip.
+
+(* Scalars in either byte order, signed or not: unpacking the packed bytes (followed by anything) gives the value back. *)
+Theorem C16_scalar_roundtrip : forall be sg w v t, (0 < w)%nat -> sfits sg w v ->
+  sc_unpack be sg w (sc_pack be sg w v ++ t) = v.
+Proof. exact sc_unpack_pack. Qed.
+Print Assumptions C16_scalar_roundtrip.
+
+(* Counted fields T*~C: for every byte order, counter width, element width and element list that the counter can count,
+   the elements come back and exactly the field's own bytes are consumed, whatever follows. *)
+Theorem C16_counted_roundtrip : forall be sg cw ew els t, (0 < ew)%nat -> Forall (sfits sg ew) els ->
+  Z.of_nat (length els) < 256 ^ Z.of_nat cw ->
+  cnt_unpack be sg cw ew (cnt_pack be sg cw ew els ++ t) = (els, length (cnt_pack be sg cw ew els)).
+Proof. exact cnt_unpack_pack. Qed.
+Print Assumptions C16_counted_roundtrip.
+
+(* Bound fields T*.name: the count read from the earlier field selects exactly the packed elements. *)
+Theorem C16_bound_roundtrip : forall be sg ew els t, (0 < ew)%nat -> Forall (sfits sg ew) els ->
+  bind_unpack be sg ew (Z.of_nat (length els)) (arr_pack be sg ew els ++ t) = (els, length (arr_pack be sg ew els)).
+Proof. exact bind_unpack_pack. Qed.
+Print Assumptions C16_bound_roundtrip.
+
+(* Terminated fields: the value is the bytes up to and including the first zero byte. *)
+Theorem C16_terminated_field : forall s t, Forall (fun b => b <> 0) s -> term_unpack (s ++ 0 :: t) = s ++ [0].
+Proof. exact term_unpack_correct. Qed.
+Print Assumptions C16_terminated_field.
+
+Example C16_fields_nonvacuous :
+  cnt_unpack true true 2 2 (cnt_pack true true 2 2 [-2; 513] ++ [9; 9]) = ([-2; 513], 6%nat) /\
+  cnt_pack true true 2 2 [-2; 513] = [0; 2; 255; 254; 2; 1] /\
+  cnt_unpack false false 4 1 [3; 0; 0; 0; 65; 66; 67; 7] = ([65; 66; 67], 7%nat).
+Proof. vm_compute. repeat split; reflexivity. Qed.
 
 Example C16_nonvacuous :
   let fs := [TRaw 1; TRaw 4; TRaw 2; TArr (TRaw 8) 2] in
